@@ -323,7 +323,7 @@ impl SocketWorker {
             }
             USER_DATA_PULSE_TIMEOUT => {
                 #[cfg(aquatic_verif)]
-                aquatic_common::verif::count("udp.time_refreshed");
+                aquatic_common::verif::count_per_thread("udp.time_refreshed");
 
                 self.validator.update_elapsed();
 
